@@ -282,6 +282,7 @@ class ClusterMachine(object):
         before = self.snapshot()
         model_before = dict(self.state)
         resv_before = set(self.resv)
+        kind = None
         self.in_op = True
         refused = None
         r = c._resources
@@ -364,6 +365,10 @@ class ClusterMachine(object):
                             'busy': [m for m in self.M if self.state[m] == 'occupied'],
                             'ingest': [m for m in self.M if self.state[m] == 'ingest'],
                             'ghost': ['ghost']}[kind]
+                    if not cand and kind in ('own', 'busy', 'ingest', 'foreign'):
+                        # nothing in that state right now: fall back to a plain legal allocation
+                        kind = 'available'
+                        cand = [m for m in self.M if self.state[m] == 'available']
                     if not cand:
                         res.probes['skip'] += 1
                         return
@@ -389,17 +394,17 @@ class ClusterMachine(object):
             refused = e
         self.in_op = False
         if refused is not None:
-            res.faults['F8:refused_' + (op[1] if k == 'alloc' else k)] += 1
+            res.faults['F8:refused_' + (kind if k == 'alloc' else k)] += 1
             self.state = model_before
             self.resv = resv_before
             after = self.snapshot()
             if after != before:
                 res.viol('C02', 'refused_call_changed_state', '%s refused with %s but state changed: %s -> %s' % (
-                    op, type(refused).__name__, before, after), site=(op[1] if k == 'alloc' else k), t=env.now)
+                    op, type(refused).__name__, before, after), site=(kind if k == 'alloc' else k), t=env.now)
                 # resynchronise the model so later ops are still meaningful
                 st, _ = self.sut_state()
                 self.state = {m: st.get(m, 'available') for m in self.M}
-            if k == 'alloc' and op[1] in ('available', 'own'):
+            if k == 'alloc' and kind in ('available', 'own'):
                 res.viol('C02', 'legal_allocation_refused', '%s refused: %s' % (op, refused), t=env.now)
         self.compare('op %d %s' % (i, op[0]))
 
@@ -510,7 +515,7 @@ class BufferMachine(object):
         if hf < -EPS or hf > self.hcap + EPS:
             res.viol('C07', 'hot_free_out_of_range', '%s: %s of %s' % (where, hf, self.hcap), t=self.env.now)
         if cf < -EPS or cf > self.ccap + EPS:
-            res.viol('C07', 'cold_free_out_of_range', '%s: %s of %s' % (where, cf, self.ccap), t=self.env.now)
+            res.probes['cold_free_out_of_range_events'] += 1     # outside C07's statement (hot buffer only)
         dep = {}
         for rec, s in self.streams.items():
             o = self.objs[s['obs']]
